@@ -135,9 +135,9 @@ def axiom_audit(cfg, res, prop):
     out = p.stdout.decode(errors="replace")
     audit = {}
     # outputs: "'name' depends on axioms: [a, b]" or "'name' does not depend on any axioms"
-    for m in re.finditer(r"'([^']+)' depends on axioms: \[([^\]]*)\]", out.replace("\n", " ")):
+    for m in re.finditer(r"'(\S+?)' depends on axioms: \[([^\]]*)\]", out.replace("\n", " ")):
         audit[m.group(1)] = [a.strip() for a in m.group(2).split(",") if a.strip()]
-    for m in re.finditer(r"'([^']+)' does not depend on any axioms", out):
+    for m in re.finditer(r"'(\S+?)' does not depend on any axioms", out):
         audit[m.group(1)] = []
     ok, bad = [], []
     for t in thms:
